@@ -18,6 +18,10 @@ mod conn;
 mod shard_actor;
 mod sync_keys;
 mod sds_codec;
+mod coll_ops;
+mod txn_ops;
+mod shard_apply;
+mod recovery;
 use std::panic;
 
 pub struct Found {
@@ -72,6 +76,10 @@ fn main() {
         "shard_actor" => shard_actor::search(&pid, &oid, seed),
         "sync_keys" => sync_keys::search(&pid, &oid, seed),
         "sds_codec" => sds_codec::search(&pid, &oid, seed),
+        "coll_ops" => coll_ops::search(&pid, &oid, seed),
+        "txn_ops" => txn_ops::search(&pid, &oid, seed),
+        "shard_apply" => shard_apply::search(&pid, &oid, seed),
+        "recovery_wal" | "recovered_apply" => recovery::search(&pid, &oid, seed),
         _ => None,
     };
     match res {
